@@ -73,7 +73,8 @@ OPS    == {"quote", "if", "progn", "let", "let*", "flet", "labels", "lambda", "c
            "set!", "handler-bind", "ignore-errors", "dotimes", "quasiquote", "thread-first", "thread-last"}
 MACROS == {"defun", "defmacro"}
 FUNS   == {"+", "-", "*", "=", "<", ">", "<=", ">=", "not", "list", "cons", "car", "cdr", "first", "rest",
-           "length", "identity", "nil?", "set", "funcall", "apply", "error", "rethrow", "probe", "boom"}
+           "length", "identity", "nil?", "set", "funcall", "apply", "error", "rethrow", "probe", "boom",
+           "load-string", "in-package", "use-package", "export"}
 BuiltinKind(name) == IF name \in OPS THEN "op" ELSE IF name \in MACROS THEN "macro" ELSE "fun"
 BuiltinFID(v) == IF v.p = "op" THEN "<special-op ``" \o v.s \o "''>"
                  ELSE IF v.p = "macro" THEN "<builtin-macro ``" \o v.s \o "''>"
@@ -87,7 +88,8 @@ Arity(name) ==
     [] name = "if" -> <<3, 3>>
     [] name = "set!" -> <<2, 2>>
     [] name = "set" -> <<2, -1>>
-    [] name \in {"funcall", "apply", "error"} -> <<1, -1>>
+    [] name \in {"funcall", "apply", "error", "in-package"} -> <<1, -1>>
+    [] name = "load-string" -> <<1, 3>>
     [] name \in {"rethrow", "boom"} -> <<0, 0>>
     [] name \in {"let", "let*", "flet", "labels", "lambda", "handler-bind", "dotimes", "thread-first", "thread-last"} -> <<1, -1>>
     [] name \in {"defun", "defmacro"} -> <<2, -1>>
@@ -152,17 +154,23 @@ MkErr(s, cond, data, env, panic) ==
   [V("err", s.neid + 1, cond, "", panic, data) EXCEPT !.i = s.envs[env].loc]
 WithErr(s, cond, data, env) ==
   [s EXCEPT !.neid = @ + 1, !.ctl = Ret(MkErr(s, cond, data, env, FALSE))]
-Fail(s, env) == WithErr(s, "error", <<>>, env)
+\* errors raised by the interpreter itself carry one data cell: the formatted message (or the
+\* native Go error).  Message texts are opaque to the specification: "#msg" matches any value.
+Msg == <<VStr("#msg")>>
+Fail(s, env) == WithErr(s, "error", Msg, env)
 
 \* ------------------------------------------------------------- checkLimits
 \* returns <<state', ok>>; one step is charged, then the budget, then the context poll
+\* (the first cfg.noctx evaluations of a history are made through the context-less entry point with no
+\* step limit: checkLimits then returns at once and nothing is counted)
 Charge(s, env) ==
+  IF s.evi <= s.cfg.noctx /\ s.cfg.budget = 0 THEN <<s, TRUE>> ELSE
   LET s1 == [s EXCEPT !.steps = @ + 1] IN
   IF s1.cfg.budget > 0 /\ s1.steps > s1.cfg.budget
-  THEN <<WithErr(s1, "step-limit-exceeded", <<>>, env), FALSE>>
+  THEN <<WithErr(s1, "step-limit-exceeded", Msg, env), FALSE>>
   ELSE LET s2 == [s1 EXCEPT !.polls = @ + 1] IN
        IF s2.cfg.cancel > 0 /\ s2.polls >= s2.cfg.cancel
-       THEN <<WithErr(s2, "context-cancelled", <<>>, env), FALSE>>
+       THEN <<WithErr(s2, "context-cancelled", Msg, env), FALSE>>
        ELSE <<s2, TRUE>>
 
 \* ------------------------------------------------------------------ lookup
@@ -241,7 +249,7 @@ EvalBody(s, v, env, md, pushed) ==
               LET r == SymValue(s1, v, env) IN
               IF r.ok THEN done([s1 EXCEPT !.ctl = Ret(NameFun(r.v, v))])
               ELSE done([s1 EXCEPT !.neid = @ + 1,
-                                  !.ctl = Ret([V("err", s1.neid + 1, "error", "", FALSE, <<>>) EXCEPT !.i = v.i])])
+                                  !.ctl = Ret([V("err", s1.neid + 1, "error", "", FALSE, Msg) EXCEPT !.i = v.i])])
          [] v.t = "list" ->
               IF Len(v.c) = 0 THEN done([s1 EXCEPT !.ctl = Ret(VNil)])
               ELSE \* evalSExprCells: clear Terminal of the top frame while head and arguments are evaluated
@@ -258,7 +266,7 @@ EvalBody(s, v, env, md, pushed) ==
 DoEval(s) ==
   LET e == s.ctl.e  env == s.ctl.env IN
   IF s.cfg.maxnest > 0 /\ Nest(s) + 1 > s.cfg.maxnest
-  THEN WithErr(s, "eval-nesting-exceeded", <<>>, env)
+  THEN WithErr(s, "eval-nesting-exceeded", Msg, env)
   ELSE EvalBody(s, e, env, 0, FALSE)
 CanReEval(s) == s.ctl.mode = "reeval"
 DoReEval(s) == EvalBody(s, s.ctl.e, s.ctl.env, s.ctl.md, s.ctl.pushed)
@@ -367,6 +375,33 @@ MkClosure(s, kind, formals, body, env) ==
   [s EXCEPT !.funs = Append(@, [fid |-> "_fun" \o ToString(idx), kind |-> kind, formals |-> formals.c,
                                  body |-> body, env |-> env, pkg |-> s.pkg])]
 
+\* a package created by in-package uses the language package: the lisp package's current exports, by value
+NewPkg(s) == [syms |-> [x \in {y \in s.pkgs["lisp"].exports : y \in DOMAIN s.pkgs["lisp"].syms} |-> s.pkgs["lisp"].syms[x]],
+              exports |-> {}, fnames |-> [x \in {} |-> ""]]
+\* export: symbols, strings and (nested) lists of them; names collected left to right until a bad argument
+RECURSIVE ExportNames(_)
+ExportNames(args) ==
+  IF Len(args) = 0 THEN [ok |-> TRUE, names |-> {}]
+  ELSE LET a == args[1] IN
+       IF a.t \in {"sym", "str"}
+       THEN LET r == ExportNames(Rest(args)) IN [ok |-> r.ok, names |-> {a.s} \cup r.names]
+       ELSE IF a.t = "list"
+       THEN LET r1 == ExportNames(a.c) IN
+            IF ~r1.ok THEN r1 ELSE LET r == ExportNames(Rest(args)) IN [ok |-> r.ok, names |-> r1.names \cup r.names]
+       ELSE [ok |-> FALSE, names |-> {}]
+\* use-package: for every named package in order, bind each of its exports (by value, now) in the current package
+RECURSIVE UsePackages(_, _, _)
+UsePackages(s, args, env) ==
+  IF Len(args) = 0 THEN [s EXCEPT !.ctl = Ret(VNil)]
+  ELSE LET a == args[1] IN
+       IF a.t \notin {"sym", "str"} THEN Fail(s, env)
+       ELSE IF a.s \notin DOMAIN s.pkgs THEN Fail(s, env)
+       ELSE LET src == s.pkgs[a.s]
+                ex == src.exports IN
+            IF \E x \in ex : x \notin DOMAIN src.syms /\ x \notin {"true", "false"} THEN Fail(s, env)   \* (bindings made before the unbound export are kept; not modelled: see C08)
+            ELSE IF \E x \in ex : x \in {"true", "false"} THEN Fail(s, env)
+            ELSE UsePackages([s EXCEPT !.pkgs[s.pkg].syms = [x \in DOMAIN @ \cup ex |-> IF x \in ex THEN src.syms[x] ELSE @[x]]], Rest(args), env)
+
 FormalsOK(fl) == fl.t = "list" /\ \A j \in 1..Len(fl.c) : fl.c[j].t = "sym"
 
 DoCall(s) ==
@@ -416,6 +451,27 @@ DoCall(s) ==
          ELSE WithErr(s, args[1].s, Rest(args), env)
     [] f.s = "rethrow" ->
          IF Len(s.conds) = 0 THEN Fail(s, env) ELSE [s EXCEPT !.ctl = Ret(Top(s.conds))]
+    [] f.s = "load-string" ->
+         \* the source text's forms travel in the string node's cells (the harness renders the same forms as text);
+         \* evaluated in the ROOT environment as a nested top-level evaluation: own frame blocked, package saved
+         IF args[1].t # "str" THEN Fail(s, env)
+         ELSE IF n = 2 \/ (n = 3 /\ ~(args[2].t = "sym" /\ args[2].p = ":" /\ args[2].s = "name" /\ args[3].t = "str")) THEN Fail(s, env)
+         ELSE LET s1 == [s EXCEPT !.frames = SetTop(@, [Top(@) EXCEPT !.tro = TRUE])] IN
+              IF Len(args[1].c) = 0 THEN [s1 EXCEPT !.ctl = Ret(VNil)]
+              ELSE [s1 EXCEPT !.k = Append(@, [t |-> "load", forms |-> args[1].c, j |-> 1, saved |-> s.pkg]),
+                              !.ctl = Eval(args[1].c[1], 1)]
+    [] f.s = "in-package" ->
+         IF args[1].t \notin {"sym", "str"} THEN Fail(s, env)
+         ELSE LET name == args[1].s IN
+              IF \E j \in 2..n : args[j].t # "str" THEN
+                   \* (the package switch has already happened when the docstring check fails)
+                   Fail([s EXCEPT !.pkgs = IF name \in DOMAIN @ THEN @ ELSE [x \in DOMAIN @ \cup {name} |-> IF x = name THEN NewPkg(s) ELSE @[x]], !.pkg = name], env)
+              ELSE [s EXCEPT !.pkgs = IF name \in DOMAIN @ THEN @ ELSE [x \in DOMAIN @ \cup {name} |-> IF x = name THEN NewPkg(s) ELSE @[x]],
+                             !.pkg = name, !.ctl = Ret(VNil)]
+    [] f.s = "use-package" -> UsePackages(s, args, env)
+    [] f.s = "export" ->
+         IF ExportNames(args).ok THEN [s EXCEPT !.pkgs[s.pkg].exports = @ \cup ExportNames(args).names, !.ctl = Ret(VNil)]
+         ELSE Fail([s EXCEPT !.pkgs[s.pkg].exports = @ \cup ExportNames(args).names], env)
     [] f.s \in {"funcall", "apply"} ->
          \* GetFunGlobal: a symbol is looked up in the current *package*, not lexically
          LET fa == args[1]
@@ -688,6 +744,10 @@ DoReturn(s) ==
     [] c.t = "cells" ->
          IF IsErr(v) THEN LeaveCells(s, c)
          ELSE [s EXCEPT !.k = SetTop(@, [c EXCEPT !.vals = Append(@, v)]), !.ctl = [mode |-> "cellstep"]]
+    [] c.t = "load" ->
+         \* load: forms in order, stop at the first error; the package current at entry is restored (deferred)
+         IF IsErr(v) \/ c.j = Len(c.forms) THEN [s EXCEPT !.k = Pop(@), !.pkg = c.saved]
+         ELSE [s EXCEPT !.k = SetTop(@, [c EXCEPT !.j = @ + 1]), !.ctl = Eval(c.forms[c.j + 1], 1)]
     [] c.t = "body" ->
          LET n == Len(s.funs[c.f.n].body) IN
          IF IsErr(v) \/ c.j = n THEN [s EXCEPT !.k = Pop(@), !.pkg = c.outer]
@@ -736,11 +796,12 @@ Unwind(s) ==
     [] c.t = "cells" -> Unwind(LeaveCells(s, c))
     [] c.t = "call" -> Unwind(PopCall(s))
     [] c.t = "body" -> Unwind([s EXCEPT !.k = Pop(@), !.pkg = c.outer])
+    [] c.t = "load" -> Unwind([s EXCEPT !.k = Pop(@), !.pkg = c.saved])
     [] c.t = "op" -> Unwind([s EXCEPT !.k = Pop(@), !.conds = IF c.op = "handler-bind" /\ c.pushed /\ c.phase = "hcall" THEN Pop(@) ELSE @])
     [] OTHER -> [s EXCEPT !.k = Pop(@)]
 DoPanic(s) ==
   LET s1 == Unwind(s) IN
-  [s1 EXCEPT !.neid = @ + 1, !.ctl = Ret([V("err", s1.neid + 1, "internal-panic", "", TRUE, <<>>) EXCEPT !.i = 0])]
+  [s1 EXCEPT !.neid = @ + 1, !.ctl = Ret([V("err", s1.neid + 1, "internal-panic", "", TRUE, Msg) EXCEPT !.i = 0])]
 
 \* ---------------------------------------------------------------- Next
 Result(s) == [id |-> s.prog.id, results |-> s.results]
